@@ -49,6 +49,8 @@ func runTypeCheck(eng *Engine, name string) []*Obligation {
 		return fieldAccessObligations(eng, strings.TrimPrefix(name, "fieldwrites:"), true)
 	case strings.HasPrefix(name, "configkeys:"):
 		return configKeyObligations(eng, strings.TrimPrefix(name, "configkeys:"))
+	case strings.HasPrefix(name, "jsonfields:"):
+		return jsonFieldObligations(eng, strings.TrimPrefix(name, "jsonfields:"))
 	case strings.HasPrefix(name, "implementors:"):
 		return implementorObligations(eng, strings.TrimPrefix(name, "implementors:"))
 	case strings.HasPrefix(name, "templates:"):
@@ -893,6 +895,65 @@ func configKeyObligations(eng *Engine, spec string) []*Obligation {
 	}
 	sort.Strings(diff)
 	return []*Obligation{mkOb(name, "configkeys", "the fields of "+spec+" decode from the recorded configuration keys (spec/configkeys.json)", len(diff) == 0 && len(want) > 0, strings.Join(diff, "; "), props)}
+}
+
+// jsonFieldObligations: "pkg.Type[@props]" — a struct that is sealed as JSON and opened again comes back field for
+// field only if encoding/json writes every field: each field is exported, none is tagged json:"-", and no two
+// fields share a key (encoding/json drops both of two fields that collide at one depth; matching on decode is
+// case-insensitive). The key names themselves are free. encoding/json itself is not verified.
+func jsonFieldObligations(eng *Engine, spec string) []*Obligation {
+	var props []string
+	if j := strings.Index(spec, "@"); j >= 0 {
+		props = strings.Split(spec[j+1:], ",")
+		spec = spec[:j]
+	}
+	name := "jsonfields[" + spec + "]"
+	k := strings.LastIndex(spec, ".")
+	if k < 0 {
+		return []*Obligation{mkOb(name, "jsonfields", "jsonfields:<pkg.Type>", false, "malformed", props)}
+	}
+	pkg := eng.typesPkg(modPrefix + "internal/" + spec[:k])
+	if pkg == nil {
+		return []*Obligation{mkOb(name, "jsonfields", "package of "+spec+" is loaded", false, "no such package", props)}
+	}
+	obj := pkg.Scope().Lookup(spec[k+1:])
+	if obj == nil {
+		return []*Obligation{mkOb(name, "jsonfields", "type "+spec+" exists", false, "no such type", props)}
+	}
+	st, ok := obj.Type().Underlying().(*types.Struct)
+	if !ok {
+		return []*Obligation{mkOb(name, "jsonfields", "type "+spec+" is a struct", false, "not a struct", props)}
+	}
+	var diff []string
+	seen := map[string]string{}
+	for i := 0; i < st.NumFields(); i++ {
+		f := st.Field(i)
+		if f.Embedded() {
+			diff = append(diff, f.Name()+" is embedded (its promoted keys are not checked here)")
+			continue
+		}
+		if !f.Exported() {
+			diff = append(diff, f.Name()+" is unexported: encoding/json does not write it")
+			continue
+		}
+		key := f.Name()
+		if tag, ok := reflect.StructTag(st.Tag(i)).Lookup("json"); ok {
+			if tag == "-" {
+				diff = append(diff, f.Name()+" is tagged json:\"-\": it is not written")
+				continue
+			}
+			if n := strings.Split(tag, ",")[0]; n != "" {
+				key = n
+			}
+		}
+		lk := strings.ToLower(key)
+		if other, dup := seen[lk]; dup {
+			diff = append(diff, fmt.Sprintf("%s and %s share the key %q", other, f.Name(), key))
+		}
+		seen[lk] = f.Name()
+	}
+	sort.Strings(diff)
+	return []*Obligation{mkOb(name, "jsonfields", "every field of "+spec+" is written by encoding/json under a key of its own (what is sealed is the whole value)", len(diff) == 0 && st.NumFields() > 0, strings.Join(diff, "; "), props)}
 }
 
 // assumedContractObligations: "name[@props]" — an assumed contract of a library the proof rests on is put to a
